@@ -27,6 +27,22 @@ pub static SAMPLES: Mutex<Vec<Value>> = Mutex::new(Vec::new());
 /// Disagreements that are the harness's own fault (its independent codec), never quinn's.
 pub static HARNESS_ERRORS: Mutex<Vec<String>> = Mutex::new(Vec::new());
 
+/// Observations that are NOT judged: behaviour the property text does not rule out (a lenient or
+/// over-strict decoder on inputs the library never produces). key -> (count, one example).
+pub static OBSERVATIONS: Mutex<std::collections::BTreeMap<String, (u64, String)>> = Mutex::new(std::collections::BTreeMap::new());
+
+pub fn observe(key: String, example: impl FnOnce() -> String) {
+    let mut g = OBSERVATIONS.lock().unwrap();
+    match g.get_mut(&key) {
+        Some(e) => e.0 += 1,
+        None => {
+            if g.len() < 64 {
+                g.insert(key, (1, example()));
+            }
+        }
+    }
+}
+
 pub fn harness_error(msg: String) {
     let mut g = HARNESS_ERRORS.lock().unwrap();
     if g.len() < 50 {
